@@ -65,6 +65,7 @@ inductive Res where
   | found (pos : Nat)   -- `found = true`, `pos`
   | notFound            -- loop ended with `io.EOF`, `found = false`: fall through to the normal CLI
   | hang                -- the loop never ends (a read of an empty slice makes no progress)
+  | panic               -- a slice expression of the loop is out of range (`buf[overlap:]` with overlap > len(buf))
   deriving Repr, DecidableEq
 
 /-- geometry of the scanner, as written in pack.go -/
@@ -105,6 +106,7 @@ def readLen (room avail want : Nat) : Nat := min (min room avail) (max 1 want)
 def scanLoop (g : Geom) (rd : Nat → Nat → Nat) : Nat → List Nat → List Nat → Nat → Res
   | 0, _, _, _ => .hang
   | fuel+1, rest, carry, pos =>
+    if g.bufSize < carry.length then .panic else         -- buf[overlap:] : slice bounds out of range
     let room := g.bufSize - carry.length                 -- len(buf[overlap:])
     let n := readLen room rest.length (rd fuel room)     -- n, rerr = f.Read(buf[overlap:])
     let window := carry ++ rest.take n                   -- buf[:overlap+n]
@@ -142,6 +144,62 @@ def archive (g : Geom) (rd : Nat → Nat → Nat) (data : List Nat) : Option (Li
   | _ => none
 
 end Impl
+
+/-! ### After the scan: what `RunPackedBinary` does with the result
+
+```go
+if err == nil && found {
+    if _, err = f.Seek(pos, 0); err == nil {
+        ret, err = runInterpreter(io.NewSectionReader(f, pos, zipLen), zipLen)   // zip error, parse/validate error
+        retCode = int(ret.(float64)); result = err == nil                          // runtime errors are printed, err = nil
+    }
+}
+handleError(err)        // errorutil.AssertOk: panics on an error
+if result { osExit(retCode) }
+```
+Everything outside the byte-level model (seek, zip reader, parser, interpreter) enters as a
+named field of `After`. -/
+
+/-- the parts that are not modelled, as named facts about one run -/
+structure After where
+  seekOk  : Bool   -- `f.Seek(pos, 0)` succeeds
+  zipOk   : Bool   -- `zip.NewReader` accepts the section and every member can be read
+  entryOk : Bool   -- the entry file parses and validates
+  result  : Int    -- `int(ret.(float64))` of evaluating the entry (0 if not a number / a runtime error was printed)
+
+/-- what the user of a packed executable observes -/
+inductive Outcome where
+  | exit (rc : Int)   -- the exit callback is reached with the entry's result
+  | fallThrough       -- RunPackedBinary returns: the normal command line starts
+  | fail              -- handleError panics (or a slice panic in the scan)
+  | hang
+  deriving Repr, DecidableEq
+
+def outcome (r : Res) (a : After) : Outcome :=
+  match r with
+  | .hang => .hang
+  | .panic => .fail
+  | .notFound => .fallThrough
+  | .found _ => if a.seekOk && a.zipOk && a.entryOk then .exit a.result else .fail
+
+/-! ### Which file is scanned
+
+`RunPackedBinary` has to scan the file that was started. `filepath.Abs(argv[0])` names that file
+when argv[0] is an absolute or relative path (also of a symbolic link to it); when the executable
+was found through `$PATH`, argv[0] is a bare name and `Abs` resolves it against the working
+directory — a missing or unrelated file. `os.Executable()` names the started file in all cases. -/
+
+inductive StartForm where
+  | absolute
+  | relative
+  | symlink
+  | viaPath (sameNameInCwd : Bool)
+  deriving Repr, DecidableEq
+
+/-- is the file that gets scanned the file that was started? -/
+def scannedIsStarted (usesOsExecutable : Bool) : StartForm → Bool
+  | .viaPath _ => usesOsExecutable
+  | _ => true
 
 namespace Spec
 /-- offset just after the first occurrence of the marker -/
